@@ -79,33 +79,49 @@ func builtinIntrinsics() map[string]Intrinsic {
 		return one(out)
 	}
 	m["strings.Fields"] = func(x *Exec, s *State, a []Value, _ *ssa.Call) []Outcome {
-		cs, ok := a[0].(Str).Concrete()
-		if !ok {
-			unsupported("strings.Fields on symbolic string")
+		if cs, ok := a[0].(Str).Concrete(); ok {
+			fs := strings.Fields(cs)
+			el := make([]Value, len(fs))
+			for i, f := range fs {
+				el[i] = StrOf(f)
+			}
+			if len(el) == 0 {
+				return one(Slice{})
+			}
+			return []Outcome{{Cond: smt.True, Val: lazyVal{func(cs *State) Value { return cs.newSlice(el) }}}}
 		}
-		fs := strings.Fields(cs)
-		el := make([]Value, len(fs))
-		for i, f := range fs {
-			el[i] = StrOf(f)
-		}
-		if len(el) == 0 {
-			return one(Slice{})
-		}
-		return []Outcome{{Cond: smt.True, Val: lazyVal{func(cs *State) Value { return cs.newSlice(el) }}}}
+		return x.fieldsSym(s, a[0].(Str))
 	}
 	m["strings.TrimSpace"] = func(x *Exec, s *State, a []Value, _ *ssa.Call) []Outcome {
-		cs, ok := a[0].(Str).Concrete()
-		if !ok {
-			unsupported("strings.TrimSpace on symbolic string")
+		if cs, ok := a[0].(Str).Concrete(); ok {
+			return one(StrOf(strings.TrimSpace(cs)))
 		}
-		return one(StrOf(strings.TrimSpace(cs)))
+		return x.trimSpaceSym(s, a[0].(Str))
 	}
 	m["strings.Title"] = func(x *Exec, s *State, a []Value, _ *ssa.Call) []Outcome {
-		cs, ok := a[0].(Str).Concrete()
-		if !ok {
-			unsupported("strings.Title on symbolic string")
+		if cs, ok := a[0].(Str).Concrete(); ok {
+			return one(StrOf(strings.Title(cs)))
 		}
-		return one(StrOf(strings.Title(cs)))
+		// symbolic text: exact for ASCII (a letter after a byte that is not an ASCII
+		// alphanumeric or '_' is upper-cased); paths with a byte >= 0x80 are cut
+		c := x.Ctx
+		str := a[0].(Str)
+		ascii := x.allASCIITerm(str)
+		out := Str{B: make([]*smt.Term, len(str.B))}
+		in := func(b *smt.Term, lo, hi byte) *smt.Term { return c.And(c.Uge(b, smt.Byte(lo)), c.Ule(b, smt.Byte(hi))) }
+		for i, b := range str.B {
+			sep := smt.True
+			if i > 0 {
+				p := str.B[i-1]
+				sep = c.Not(c.Or(c.Or(in(p, '0', '9'), in(p, 'a', 'z')), c.Or(in(p, 'A', 'Z'), c.Eq(p, smt.Byte('_')))))
+			}
+			out.B[i] = c.Ite(c.And(sep, in(b, 'a', 'z')), c.Sub(b, smt.Byte(32)), b)
+		}
+		outs := []Outcome{{Cond: ascii, Val: out}}
+		if ascii != smt.True {
+			outs = append(outs, Outcome{Cond: c.Not(ascii), Cut: "strings.Title on symbolic text containing non-ASCII bytes"})
+		}
+		return outs
 	}
 	m["strings.NewReplacer"] = func(x *Exec, s *State, a []Value, _ *ssa.Call) []Outcome {
 		return one(Ptr{}) // never used through the engine (html.EscapeString is an intrinsic)
@@ -224,6 +240,8 @@ func builtinIntrinsics() map[string]Intrinsic {
 	m["(*sync.Mutex).Unlock"] = noop
 	m["(*sync.RWMutex).RLock"] = noop
 	m["(*sync.RWMutex).RUnlock"] = noop
+	m["(*sync.RWMutex).Lock"] = noop
+	m["(*sync.RWMutex).Unlock"] = noop
 	// ---- reflect (only what package initialisers touch) ----
 	m["reflect.TypeOf"] = func(x *Exec, s *State, a []Value, _ *ssa.Call) []Outcome {
 		return one(Iface{T: types.Typ[types.Int], V: &Ext{Kind: "reflect.Type"}})
@@ -244,6 +262,24 @@ func asciiSet(chars Str) []byte {
 		}
 	}
 	return []byte(cs)
+}
+
+// provablyASCII: every leaf of the ite / value-set term is an ASCII constant.
+func (x *Exec) provablyASCII(t *smt.Term) bool {
+	switch t.Op {
+	case smt.OpConst:
+		return t.Val < 0x80
+	case smt.OpIte:
+		return x.provablyASCII(t.A[1]) && x.provablyASCII(t.A[2])
+	case smt.OpVS:
+		for _, v := range t.Vals {
+			if v >= 0x80 {
+				return false
+			}
+		}
+		return true
+	}
+	return false
 }
 
 func (x *Exec) byteIn(b *smt.Term, set []byte) *smt.Term {
@@ -290,6 +326,25 @@ func (x *Exec) indexByte(s Str, b *smt.Term) []Outcome {
 }
 
 func (x *Exec) indexAny(s Str, chars Str) []Outcome {
+	if _, conc := chars.Concrete(); !conc {
+		// a character set with symbolic bytes (selected from a table by a symbolic index):
+		// byte-wise membership, exact when every set byte is ASCII
+		c := x.Ctx
+		for _, ch := range chars.B {
+			if !x.provablyASCII(ch) {
+				unsupported("character set argument with possibly non-ASCII symbolic bytes")
+			}
+		}
+		hit := make([]*smt.Term, len(s.B))
+		for i, t := range s.B {
+			h := smt.False
+			for _, ch := range chars.B {
+				h = c.Or(h, c.Eq(t, ch))
+			}
+			hit[i] = h
+		}
+		return x.firstIndex(hit)
+	}
 	set := asciiSet(chars)
 	hit := make([]*smt.Term, len(s.B))
 	for i, t := range s.B {
@@ -1315,6 +1370,113 @@ func bufMethods(m map[string]Intrinsic) {
 		bufStore(s, a[0].(Ptr), Str{}, 0)
 		return one(nil)
 	}
+}
+
+// ---------- strings.Fields / strings.TrimSpace on symbolic text ----------
+// Exact for ASCII text (white space: TAB LF VT FF CR SPACE); paths on which a byte is
+// >= 0x80 are cut (Unicode white space such as U+0085 and U+00A0 is not encoded).
+
+const cutNonASCIISpace = "strings.Fields / strings.TrimSpace on symbolic text containing non-ASCII bytes (Unicode white space is not encoded)"
+
+func (x *Exec) asciiSpace(b *smt.Term) *smt.Term {
+	c := x.Ctx
+	return c.Or(c.Eq(b, smt.Byte(' ')), c.And(c.Uge(b, smt.Byte(9)), c.Ule(b, smt.Byte(13))))
+}
+
+func (x *Exec) allASCIITerm(str Str) *smt.Term {
+	c := x.Ctx
+	r := smt.True
+	for _, b := range str.B {
+		r = c.And(r, c.Ult(b, smt.Byte(0x80)))
+	}
+	return r
+}
+
+func (x *Exec) trimSpaceSym(s *State, str Str) []Outcome {
+	c := x.Ctx
+	n := len(str.B)
+	ascii := x.allASCIITerm(str)
+	sp := make([]*smt.Term, n)
+	for i, b := range str.B {
+		sp[i] = x.asciiSpace(b)
+	}
+	var outs []Outcome
+	if ascii != smt.True {
+		outs = append(outs, Outcome{Cond: c.Not(ascii), Cut: cutNonASCIISpace})
+	}
+	all := ascii
+	for i := 0; i < n; i++ {
+		all = c.And(all, sp[i])
+	}
+	outs = append(outs, Outcome{Cond: all, Val: Str{}})
+	for i := 0; i < n; i++ {
+		lead := c.And(ascii, c.Not(sp[i]))
+		for k := 0; k < i; k++ {
+			lead = c.And(lead, sp[k])
+		}
+		if lead == smt.False {
+			continue
+		}
+		for j := n; j > i; j-- {
+			g := c.And(lead, c.Not(sp[j-1]))
+			for k := j; k < n; k++ {
+				g = c.And(g, sp[k])
+			}
+			if g == smt.False {
+				continue
+			}
+			outs = append(outs, Outcome{Cond: g, Val: Str{B: str.B[i:j]}})
+		}
+	}
+	return outs
+}
+
+func (x *Exec) fieldsSym(s *State, str Str) []Outcome {
+	c := x.Ctx
+	n := len(str.B)
+	if n > 10 {
+		unsupported("strings.Fields on a symbolic string of %d bytes", n)
+	}
+	ascii := x.allASCIITerm(str)
+	var outs []Outcome
+	if ascii != smt.True {
+		outs = append(outs, Outcome{Cond: c.Not(ascii), Cut: cutNonASCIISpace})
+	}
+	sp := make([]*smt.Term, n)
+	for i, b := range str.B {
+		sp[i] = x.asciiSpace(b)
+	}
+	var rec func(i int, g *smt.Term, mask []bool)
+	rec = func(i int, g *smt.Term, mask []bool) {
+		if g == smt.False {
+			return
+		}
+		if i == n {
+			var el []Value
+			for k := 0; k < n; {
+				if mask[k] {
+					k++
+					continue
+				}
+				e := k
+				for e < n && !mask[e] {
+					e++
+				}
+				el = append(el, Str{B: str.B[k:e]})
+				k = e
+			}
+			if len(el) == 0 {
+				outs = append(outs, Outcome{Cond: g, Val: Slice{}})
+				return
+			}
+			outs = append(outs, Outcome{Cond: g, Val: lazyVal{func(cs *State) Value { return cs.newSlice(el) }}})
+			return
+		}
+		rec(i+1, c.And(g, sp[i]), append(append([]bool(nil), mask...), true))
+		rec(i+1, c.And(g, c.Not(sp[i])), append(append([]bool(nil), mask...), false))
+	}
+	rec(0, ascii, nil)
+	return outs
 }
 
 // ---------- strings.Builder ----------
